@@ -25,7 +25,7 @@ fn arg(name: &str, d: &str) -> String {
     a.iter().position(|x| x == name).and_then(|i| a.get(i + 1)).cloned().unwrap_or_else(|| d.to_string())
 }
 
-struct Abs { route: String, framing: String, fault: String, at: String, pace: String }
+struct Abs { route: String, framing: String, fault: String, at: String, pace: String, interim: String, lsid: String }
 
 fn pick<'a>(rng: &mut StdRng, xs: &[(&'a str, u32)]) -> &'a str {
     let tot: u32 = xs.iter().map(|x| x.1).sum();
@@ -55,8 +55,8 @@ fn random_scenario(seed: u64, run: u64) -> (Scenario, Vec<Abs>) {
         if route == "iplimit" { have_iplimit = true; }
         let framing = if back == "h1" { pick(&mut rng, &[("cl", 3), ("chunked", 3), ("close", 1)]) } else { pick(&mut rng, &[("cl", 1), ("chunked", 1)]) };
         let mut body = rng.random_range(1..=2usize);
-        let mut spec = ReqSpec { route: route.into(), framing: framing.into(), body, fault: "none".into(), at: "none".into(), k: rng.random_range(0..4), off: None };
-        let mut a = Abs { route: route.into(), framing: framing.into(), fault: "none".into(), at: "none".into(), pace: "fast".into() };
+        let mut spec = ReqSpec { route: route.into(), framing: framing.into(), body, k: rng.random_range(0..4), ..Default::default() };
+        let mut a = Abs { route: route.into(), framing: framing.into(), fault: "none".into(), at: "none".into(), pace: "fast".into(), interim: "none".into(), lsid: "na".into() };
         if route == "b" && rng.random_bool(0.25) {
             spec.fault = "drip".into();
             spec.body = 3;
@@ -134,7 +134,7 @@ fn random_scenario(seed: u64, run: u64) -> (Scenario, Vec<Abs>) {
     if !shared { for a in abs.iter_mut() { if a.fault == "connstall" { a.fault = "stall".into(); } } }
     let nbk = if n == 1 && reqs[0].route == "a" && rng.random_bool(0.15) { 2 } else { 1 };
     let timing = if rng.random_bool(0.3) { "ff" } else { "bf" };
-    let scn = Scenario { id: run, front: front.into(), back: back.into(), mode: mode.into(), nbk, timing: timing.into(), gap_ms: if mode == "mux" { [0u64, 0, 1, 2, 5][rng.random_range(0..5)] } else { 0 }, reqs };
+    let scn = Scenario { id: run, front: front.into(), back: back.into(), mode: mode.into(), nbk, timing: timing.into(), gap_ms: if mode == "mux" { [0u64, 0, 1, 2, 5][rng.random_range(0..5)] } else { 0 }, reqs, sel: None };
     (scn, abs)
 }
 
@@ -246,7 +246,7 @@ fn main() {
             }
             drop(st);
             let rec = json!({"run": run, "front": scn.front, "back": scn.back, "mode": scn.mode, "nbk": scn.nbk, "timing": scn.timing, "sig": sig,
-                "reqs": abs.iter().map(|a| json!({"route": a.route, "framing": a.framing, "fault": a.fault, "at": a.at, "pace": a.pace})).collect::<Vec<_>>(),
+                "reqs": abs.iter().map(|a| json!({"route": a.route, "framing": a.framing, "fault": a.fault, "at": a.at, "pace": a.pace, "interim": a.interim, "lsid": a.lsid})).collect::<Vec<_>>(),
                 "script": scn.to_json().to_string(),
                 "obs": project(run, &obs, &events)});
             lines.lock().unwrap().push((if only > 0 { i + 1 } else { run }, rec));
